@@ -91,7 +91,8 @@ PROPS = {
                 engines=[chain("bankvm", 160, 1600, ops=100), vm("calls", 16000, 320000), vm("create", 1600, 16000)]),
     "C19": dict(BANKVM, lean=["Shentu.Props.C19"], engines=[chain("bankvm", 160, 1600, ops=100)]),
     "C11": dict(GOV, lean=["Shentu.Props.C11"]),
-    "C12": dict(GOV, lean=["Shentu.Props.C12"]),
+    "C12": dict(GOV, lean=["Shentu.Props.C12"], engines=GOV["engines"] + [chain("shield", 48, 480, ops=160)],
+                assumptions=["governance parameters are constant along a history", "shield-claim proposals (certifier round, then the certified identities' stake round) are exercised by the shield engine; their tally is restated independently by the monitor stake_round_rule with the certified identities' bonded stake as the quorum base"]),
     "C13": dict(GOV, lean=["Shentu.Props.C13"]),
     "C15": {
         "lean": ["Shentu.Props.C15"],
